@@ -984,6 +984,11 @@ impl<'a> Parser<'a> {
     };
 
     let previous = mem::replace(&mut self.fun_kind, FunKind::Fun);
+
+    // a loop around the lambda does not extend into its body
+    let loop_depth = self.loop_depth;
+    self.loop_depth = 0;
+
     let lambda = self.fun_body(BlockReturn::Can).map(|body| {
       self.atom_expr(Primary::Lambda(self.node(Fun::new(
         self.let_name.clone(),
@@ -993,6 +998,7 @@ impl<'a> Parser<'a> {
       ))))
     });
 
+    self.loop_depth = loop_depth;
     self.fun_kind = previous;
     lambda
   }
@@ -1348,9 +1354,6 @@ impl<'a> Parser<'a> {
       return self.error_current(&format!("Expected '(' after {} name.", self.fun_kind));
     }
 
-    let loop_depth = self.loop_depth;
-    self.loop_depth = 0;
-
     // parse function parameters
     let call_params = self.call_params(TokenKind::RightParen)?;
     let call_sig = self.call_signature(call_params, type_params)?;
@@ -1358,6 +1361,10 @@ impl<'a> Parser<'a> {
     if !self.match_kind(TokenKind::LeftBrace)? {
       return self.error_current(&format!("Expected '{{' after {} signature.", self.fun_kind));
     }
+
+    // a loop around the declaration does not extend into the body
+    let loop_depth = self.loop_depth;
+    self.loop_depth = 0;
 
     let fun = self.block(block_return).map(|body| {
       Fun::new(
